@@ -232,6 +232,7 @@ def main(tier):
             c = {"id": "p%d" % i, "units": [src], "timeout_ms": 60000}
             c.update(opts)
             cases.append(c)
+        cases_by_id = {c["id"]: c for c in cases}
         results, meta = core.run_cases(cases, env=env, tag="c11")
         for i, (kind, src, ref) in enumerate(progs):
             res = results.get("p%d" % i)
@@ -240,6 +241,11 @@ def main(tier):
             rep.count()
             exp = c01.expected(ref)
             replay = {"config": env, "opts": opts, "src": src, "expected": list(exp)}
+            if res["status"] == "timeout":
+                again = core.retry_alone(cases_by_id["p" + str(i)], env=env, tag="c11r")
+                if again is not None and again["status"] == "ok":
+                    rep.inconclusive_note("a time-out in the loaded batch was not reproduced alone (" + cname + ")")
+                    res = again
             if res["status"] != "ok":
                 rep.violation("C11 %s: engine process %s" % (kind, res["status"]), "config=%s\n%s" % (cname, src[:800]), replay)
                 continue
